@@ -90,6 +90,11 @@ def check_export(params):
     if len(g.inputs) != len(d.dom) or len(g.outputs) != len(d.cod):
         bad("boundary", "graph has %d inputs / %d outputs" % (len(g.inputs), len(g.outputs)))
         return out
+    snap = ref.snapshot(d)
+    g2 = d.to_pyzx()
+    if ref.snapshot(d) != snap or (list(g2.inputs), list(g2.outputs), sorted(g2.vertices()), sorted(map(tuple, g2.edges()))) != \
+            (list(g.inputs), list(g.outputs), sorted(g.vertices()), sorted(map(tuple, g.edges()))):
+        bad("second-export", "to_pyzx() of the same diagram a second time gives a different graph, or the diagram was changed")
     try:
         got = graph_matrix(g)
     except Exception as e:  # noqa
